@@ -7,6 +7,7 @@
 //! length and byte position x {bit flip, 0x00, 0xFF} of segment and checkpoint images (quick:
 //! header/footer positions + sample; thorough: all).
 use crate::c07;
+use crate::c10::{boundary_values, constant_runs, le_bytes, overwrite};
 use crate::enc::{hex, show_real, MCrdt, MLww, MRv};
 use crate::out::Out;
 use crate::rng::Rng;
@@ -147,7 +148,13 @@ fn roundtrips(ds: &[ReplicationDelta], rng: &mut Rng, out: &mut Out) {
         let e = WalEntry::from_delta(d, ts).unwrap();
         let enc = e.encode();
         out.op(format!("W {} {}", ts, hex(&e.data)), hex(&enc));
-        let back = WalEntry::decode(&enc);
+        let back = match catch_unwind(AssertUnwindSafe(|| WalEntry::decode(&enc))) {
+            Ok(b) => b,
+            Err(_) => {
+                out.violation("C14:wal-entry:panic:roundtrip", "WalEntry::decode panicked on a freshly encoded entry", json!({"entry": hex(&enc)}));
+                None
+            }
+        };
         out.op(
             format!("wd {}", hex(&enc)),
             match &back {
@@ -164,7 +171,42 @@ fn roundtrips(ds: &[ReplicationDelta], rng: &mut Rng, out: &mut Out) {
             out.violation("C14:roundtrip:wal-entry", "a delta did not survive from_delta/encode/decode/to_delta", json!({"delta": show_delta(d), "ts": ts}));
         }
     }
-    // gossip messages (serde_json): every variant that carries deltas
+    gossip_roundtrips(ds, rng, out);
+}
+
+fn variant_name(m: &GossipMessage) -> &'static str {
+    match m {
+        GossipMessage::DeltaBatch { .. } => "DeltaBatch",
+        GossipMessage::TargetedDelta { .. } => "TargetedDelta",
+        GossipMessage::SyncRequest { .. } => "SyncRequest",
+        GossipMessage::SyncResponse { .. } => "SyncResponse",
+        GossipMessage::Heartbeat { .. } => "Heartbeat",
+    }
+}
+
+/// canonical text of a gossip message: every field, payload BYTES in hex (through the public
+/// fields of the registers, not through Display / serde)
+fn show_gossip(m: &GossipMessage) -> String {
+    let meta = match m {
+        GossipMessage::DeltaBatch { source_replica, epoch, .. } => format!("{} {}", source_replica.0, epoch),
+        GossipMessage::TargetedDelta { source_replica, target_replica, epoch, .. } => format!("{} {} {}", source_replica.0, target_replica.0, epoch),
+        GossipMessage::SyncRequest { source_replica, known_versions } => {
+            let mut kv: Vec<String> = known_versions.iter().map(|(k, v)| format!("{}={}", hex(k.as_bytes()), v)).collect();
+            kv.sort();
+            format!("{} {}", source_replica.0, kv.join(","))
+        }
+        GossipMessage::SyncResponse { source_replica, .. } => format!("{}", source_replica.0),
+        GossipMessage::Heartbeat { source_replica, epoch } => format!("{} {}", source_replica.0, epoch),
+    };
+    let ds: Vec<String> = m.clone().into_deltas().unwrap_or_default().iter().map(show_delta).collect();
+    format!("{} {} [{}]", variant_name(m), meta, ds.join(" | "))
+}
+
+/// the gossip encoding (serde_json over the derived impls) as a first-class part of the tie:
+/// every delta through every message variant, payload bytes compared; every truncation of the
+/// JSON frame must be rejected; byte flips are measured (JSON frames carry no checksum, so a
+/// flipped digit legitimately decodes to other data: the property claims the round trip only)
+fn gossip_roundtrips(ds: &[ReplicationDelta], rng: &mut Rng, out: &mut Out) {
     let src = ReplicaId::new(rng.range(1, 3));
     let msgs = vec![
         GossipMessage::new_delta_batch(src, ds.to_vec(), rng.next()),
@@ -174,30 +216,63 @@ fn roundtrips(ds: &[ReplicationDelta], rng: &mut Rng, out: &mut Out) {
         GossipMessage::SyncRequest { source_replica: src, known_versions: ds.iter().map(|d| (d.key.clone(), rng.next())).collect() },
     ];
     for m in msgs {
-        out.count("roundtrip:gossip");
-        let show = |m: &GossipMessage| -> String {
-            let j = serde_json::to_value(m).unwrap();
-            let tag = j.as_object().unwrap().keys().next().unwrap().clone();
-            let meta = match m {
-                GossipMessage::DeltaBatch { source_replica, epoch, .. } => format!("{} {}", source_replica.0, epoch),
-                GossipMessage::TargetedDelta { source_replica, target_replica, epoch, .. } => format!("{} {} {}", source_replica.0, target_replica.0, epoch),
-                GossipMessage::SyncRequest { source_replica, known_versions } => {
-                    let mut kv: Vec<String> = known_versions.iter().map(|(k, v)| format!("{}={}", hex(k.as_bytes()), v)).collect();
-                    kv.sort();
-                    format!("{} {}", source_replica.0, kv.join(","))
-                }
-                GossipMessage::SyncResponse { source_replica, .. } => format!("{}", source_replica.0),
-                GossipMessage::Heartbeat { source_replica, epoch } => format!("{} {}", source_replica.0, epoch),
-            };
-            let ds: Vec<String> = m.clone().into_deltas().unwrap_or_default().iter().map(show_delta).collect();
-            format!("{} {} [{}]", tag, meta, ds.join(" | "))
+        let var = variant_name(&m);
+        out.count(&format!("roundtrip:gossip:{}", var));
+        let want = show_gossip(&m);
+        let bytes = match catch_unwind(AssertUnwindSafe(|| m.serialize())) {
+            Ok(Ok(b)) => b,
+            _ => {
+                out.op(format!("g {} 0", var), "serialize FAILED".into());
+                out.violation(&format!("C14:gossip:roundtrip:{}", var), "a gossip message could not be serialised", json!({"message": want}));
+                continue;
+            }
         };
-        let ok = match m.serialize().ok().and_then(|b| GossipMessage::deserialize(&b).ok()) {
-            Some(m2) => show(&m2) == show(&m),
-            None => false,
+        let back = catch_unwind(AssertUnwindSafe(|| GossipMessage::deserialize(&bytes)));
+        let got = match &back {
+            Ok(Ok(m2)) => Some(show_gossip(m2)),
+            _ => None,
         };
+        let ok = got.as_deref() == Some(want.as_str());
+        // the law `de (ser m) = some m` of the model's gossip codec instance, checked on every run
+        out.op(format!("g {} {}", var, bytes.len()), if ok { "roundtrip ok".into() } else { "roundtrip DIFFERENT".into() });
         if !ok {
-            out.violation("C14:roundtrip:gossip", "a gossip message did not survive serialize/deserialize", json!({"message": show(&m)}));
+            // name the first delta that differs, with its payload bytes
+            let orig: Vec<String> = m.clone().into_deltas().unwrap_or_default().iter().map(show_delta).collect();
+            let dec: Vec<String> = match back {
+                Ok(Ok(m2)) => m2.into_deltas().unwrap_or_default().iter().map(show_delta).collect(),
+                _ => vec![],
+            };
+            let first = orig.iter().zip(dec.iter()).find(|(a, b)| a != b).map(|(a, b)| json!({"sent": a, "received": b}));
+            out.violation(
+                &format!("C14:gossip:roundtrip:{}", var),
+                "a gossip message did not survive serialize/deserialize unchanged (payload bytes compared)",
+                json!({"variant": var, "first_differing_delta": first, "sent": want.chars().take(600).collect::<String>(), "received": got.map(|g| g.chars().take(600).collect::<String>()), "json": String::from_utf8_lossy(&bytes).chars().take(600).collect::<String>()}),
+            );
+            continue;
+        }
+        // truncation at every length (sampled when the frame is long): never a decoded message
+        let n = bytes.len();
+        for l in 0..n {
+            if n > 400 && !(l < 48 || l + 48 >= n || rng.chance(1, (n / 120).max(1) as u64)) {
+                continue;
+            }
+            out.count("damage:gossip:truncate");
+            match catch_unwind(AssertUnwindSafe(|| GossipMessage::deserialize(&bytes[..l]))) {
+                Err(_) => out.violation("C14:gossip:panic:truncate", "deserialising a truncated gossip frame panicked", json!({"variant": var, "len": l})),
+                Ok(Err(_)) => {}
+                Ok(Ok(m2)) => out.violation("C14:gossip:truncate:decoded", "a truncated gossip frame was decoded", json!({"variant": var, "len": l, "of": n, "decoded": show_gossip(&m2).chars().take(300).collect::<String>()})),
+            }
+        }
+        // byte flips: measured, not judged (no checksum on the wire)
+        for _ in 0..24.min(n) {
+            let p = rng.below(n as u64) as usize;
+            let mut b = bytes.clone();
+            b[p] ^= 1 << rng.below(8);
+            match catch_unwind(AssertUnwindSafe(|| GossipMessage::deserialize(&b))) {
+                Err(_) => out.violation("C14:gossip:panic:flip", "deserialising a damaged gossip frame panicked", json!({"variant": var, "pos": p})),
+                Ok(Err(_)) => out.count("gossip-flip:rejected"),
+                Ok(Ok(m2)) => out.count(if show_gossip(&m2) == want { "gossip-flip:identical" } else { "gossip-flip:decoded-different(no checksum on the wire)" }),
+            }
         }
     }
 }
@@ -306,6 +381,61 @@ fn segment_case(ds: &[ReplicationDelta], rng: &mut Rng, out: &mut Out, thorough:
             }
         }
     }
+    // boundary values in every integer field (header: version, flags, record_count, min/max stamp,
+    // header crc; every record length prefix; footer: data crc, sizes) and constant runs at every
+    // field / record boundary, written over or appended after a cut
+    {
+        let mut fields: Vec<(usize, usize, &str)> = vec![(4, 1, "header"), (5, 1, "header"), (6, 4, "record-count"), (10, 8, "header"), (18, 8, "header"), (26, 4, "header-crc"), (n - 24, 4, "footer-crc"), (n - 20, 8, "footer-size"), (n - 12, 8, "footer-size")];
+        let mut bounds: Vec<usize> = vec![0, 4, 6, 10, 18, 26, 30, 40, n - 24, n - 20, n - 4, n];
+        let mut off = 40usize;
+        for (i, d) in ds.iter().enumerate() {
+            let l = bincode::serialize(d).unwrap().len();
+            if thorough || i == 0 || i + 1 == ds.len() {
+                fields.push((off, 4, "record-length"));
+                bounds.extend([off, off + 4]);
+            }
+            off += 4 + l;
+        }
+        bounds.sort();
+        bounds.dedup();
+        let mut check = |out: &mut Out, op: String, b: &[u8], what: &str| {
+            let r = read_segment(b);
+            out.op(op.clone(), show(&r));
+            out.count(&format!("damage:segment:{}", what));
+            match &r {
+                Err(_) => out.violation(&format!("C14:segment:panic:{}", what), "reading a damaged segment panicked", json!({"segment": hex(&img), "damage": op})),
+                Ok(Err(_)) => {}
+                Ok(Ok(d)) => {
+                    if !same(d) {
+                        out.violation(&format!("C14:segment:{}:decoded-different", what), "a damaged segment decoded into different data", json!({"segment": hex(&img), "damage": op}));
+                    }
+                }
+            }
+        };
+        for (pos, width, what) in fields {
+            let remaining = (n - pos) as u64;
+            let extra = [remaining, remaining.saturating_sub(4), remaining.saturating_sub(28), (1u64 << 32) - pos as u64, (1u64 << 32) - 4 - pos as u64];
+            for v in boundary_values(width, &extra) {
+                let w = le_bytes(v, width);
+                if img[pos..pos + width] == w[..] {
+                    continue;
+                }
+                check(out, format!("sw {} {}", pos, hex(&w)), &overwrite(&img, pos, &w), &format!("boundary-value:{}", what));
+            }
+        }
+        for p in bounds {
+            for run in constant_runs() {
+                if p < n && (thorough || run[0] != 0x55) {
+                    check(out, format!("sw {} {}", p, hex(&run)), &overwrite(&img, p, &run), "constant-run");
+                }
+                if run.len() >= 16 {
+                    let mut b = img[..p].to_vec();
+                    b.extend_from_slice(&run);
+                    check(out, format!("sta {} {}", p, hex(&run)), &b, "cut+constant-tail");
+                }
+            }
+        }
+    }
     for (p, v) in m.subs {
         let mut b = img.clone();
         b[p] = v;
@@ -374,6 +504,50 @@ fn checkpoint_case(ds: &[ReplicationDelta], rng: &mut Rng, out: &mut Out, thorou
             Ok(Ok(_)) => out.violation("C14:checkpoint:truncate:decoded", "a truncated checkpoint was decoded", json!({"checkpoint": hex(&img), "len": l})),
         }
     }
+    // boundary values in every integer field (header: version, flags, key_count, timestamp,
+    // last_segment_id, header crc; data length; footer: data crc, data size, footer crc) and
+    // constant runs at every field boundary
+    {
+        let fields: Vec<(usize, usize, &str)> = vec![(4, 1, "header"), (5, 1, "header"), (8, 8, "header"), (16, 8, "header"), (24, 8, "header"), (44, 4, "header-crc"), (48, 4, "data-length"), (n - 16, 4, "footer"), (n - 12, 8, "footer-size"), (n - 4, 4, "footer")];
+        let bounds: Vec<usize> = vec![0, 4, 6, 8, 16, 24, 32, 44, 48, 52, n - 16, n - 12, n - 4, n];
+        let mut check = |out: &mut Out, op: String, b: &[u8], what: &str| {
+            let r = read_checkpoint(b);
+            out.op(op.clone(), show(&r));
+            out.count(&format!("damage:checkpoint:{}", what));
+            match &r {
+                Err(_) => out.violation(&format!("C14:checkpoint:panic:{}", what), "reading a damaged checkpoint panicked", json!({"checkpoint": hex(&img), "damage": op})),
+                Ok(Err(_)) => {}
+                Ok(Ok(st)) => {
+                    if show_state(st) != orig {
+                        out.violation(&format!("C14:checkpoint:{}:decoded-different", what), "a damaged checkpoint decoded into different data", json!({"checkpoint": hex(&img), "damage": op}));
+                    }
+                }
+            }
+        };
+        for (pos, width, what) in fields {
+            let remaining = (n - pos) as u64;
+            let extra = [remaining, remaining.saturating_sub(4), remaining.saturating_sub(20), (n - 68) as u64 + 1, ((n - 68) as u64).saturating_sub(1), (1u64 << 32) - 52, (1u64 << 32) - 68];
+            for v in boundary_values(width, &extra) {
+                let w = le_bytes(v, width);
+                if img[pos..pos + width] == w[..] {
+                    continue;
+                }
+                check(out, format!("cw {} {}", pos, hex(&w)), &overwrite(&img, pos, &w), &format!("boundary-value:{}", what));
+            }
+        }
+        for p in bounds {
+            for run in constant_runs() {
+                if p < n && (thorough || run[0] != 0x55) {
+                    check(out, format!("cw {} {}", p, hex(&run)), &overwrite(&img, p, &run), "constant-run");
+                }
+                if run.len() >= 16 {
+                    let mut b = img[..p].to_vec();
+                    b.extend_from_slice(&run);
+                    check(out, format!("cta {} {}", p, hex(&run)), &b, "cut+constant-tail");
+                }
+            }
+        }
+    }
     for (p, v) in m.subs {
         let mut b = img.clone();
         b[p] = v;
@@ -410,6 +584,45 @@ fn checkpoint_case(ds: &[ReplicationDelta], rng: &mut Rng, out: &mut Out, thorou
 fn wal_entry_damage(d: &ReplicationDelta, rng: &mut Rng, out: &mut Out, thorough: bool, fixed: bool) {
     let e = WalEntry::from_delta(d, 5).unwrap();
     let img = e.encode();
+    // boundary values in the three header fields and constant runs at every field boundary
+    let mut images: Vec<(Vec<u8>, String)> = Vec::new();
+    for (pos, width, what) in [(0usize, 4usize, "len"), (4, 8, "timestamp"), (12, 4, "crc")] {
+        let remaining = img.len() as u64;
+        let extra = [remaining - 16, remaining - 15, remaining - 17, remaining, (1u64 << 32) - 16, (1u64 << 32) - 17];
+        for v in boundary_values(width, &extra) {
+            let w = le_bytes(v, width);
+            if img[pos..pos + width] != w[..] {
+                images.push((overwrite(&img, pos, &w), format!("boundary-value:{}", what)));
+            }
+        }
+    }
+    for p in [0usize, 4, 12, 16] {
+        for run in constant_runs() {
+            images.push((overwrite(&img, p, &run), "constant-run".into()));
+            let mut b = img[..p].to_vec();
+            b.extend_from_slice(&run);
+            images.push((b, "cut+constant-tail".into()));
+        }
+    }
+    for (b, what) in images {
+        let r = catch_unwind(AssertUnwindSafe(|| WalEntry::decode(&b)));
+        let imp = match &r {
+            Err(_) => "crash".to_string(),
+            Ok(None) => "none".into(),
+            Ok(Some((e2, n))) => format!("{} {} {} {}", e2.timestamp, e2.checksum, hex(&e2.data), n),
+        };
+        out.op(format!("wd {}", hex(&b)), imp);
+        out.count(&format!("damage:wal-entry:{}", what));
+        match r {
+            Err(_) => out.violation(&format!("C14:wal-entry:panic:{}", what), "WalEntry::decode panicked", json!({"entry": hex(&b), "pristine": hex(&img)})),
+            Ok(None) => {}
+            Ok(Some((e2, _))) => {
+                if e2.data != e.data || e2.timestamp != e.timestamp {
+                    out.violation(&format!("C14:wal-entry:{}:decoded-different", what), "a damaged WAL entry decoded into different data", json!({"entry": hex(&b), "pristine": hex(&img)}));
+                }
+            }
+        }
+    }
     let mut subs: Vec<(usize, u8)> = Vec::new();
     if fixed {
         subs.push((5, 1)); // second stamp byte 0 -> 1: stamp 5 -> 261
@@ -436,7 +649,7 @@ fn wal_entry_damage(d: &ReplicationDelta, rng: &mut Rng, out: &mut Out, thorough
         let region = if p < 4 { "len" } else if p < 12 { "timestamp" } else if p < 16 { "crc" } else { "payload" };
         out.count(&format!("damage:wal-entry:{}", region));
         match r {
-            Err(_) => out.violation("C14:wal-entry:panic", "WalEntry::decode panicked", json!({"entry": hex(&b)})),
+            Err(_) => out.violation("C14:wal-entry:panic:byte", "WalEntry::decode panicked", json!({"entry": hex(&b)})),
             Ok(None) => {}
             Ok(Some((e2, _))) => {
                 if e2.data != e.data {
@@ -493,6 +706,21 @@ pub fn run(a: &Args) {
         segment_case(&w, &mut rng, &mut out, false, "corpus:embedded-footer");
         wal_entry_damage(&w[0], &mut rng, &mut out, false, true);
         out.count(if out.oracle.len() == before { "corpus:embedded-footer+stamp-flip:pass" } else { "corpus:embedded-footer+stamp-flip:FAIL" });
+    }
+    // non-UTF-8 payloads ([0xff], a SETBIT-style bitmap, a hash field with invalid UTF-8) through every
+    // encoding, first
+    {
+        let mk = |key: &str, v: Vec<u8>| {
+            let m = MRv { crdt: MCrdt::Lww(MLww { v: Some(v), t: 2, r: 1, tomb: false }), vc: None, exp: None, t: 2, r: 1, rf: None };
+            ReplicationDelta::new(key.into(), m.to_real(), ReplicaId::new(1))
+        };
+        let mut h = std::collections::BTreeMap::new();
+        h.insert("f".to_string(), MLww { v: Some(vec![0xC3, 0x28, 0xFF]), t: 3, r: 1, tomb: false });
+        let hash = ReplicationDelta::new("h".into(), MRv { crdt: MCrdt::H(h), vc: None, exp: None, t: 3, r: 1, rf: None }.to_real(), ReplicaId::new(1));
+        let ds = vec![mk("ff", vec![0xFF]), mk("bitmap", vec![0x80, 0x01, 0xFE, 0x00, 0xFF]), hash];
+        roundtrips(&ds, &mut rng, &mut out);
+        segment_case(&ds, &mut rng, &mut out, false, "non-utf8-payloads");
+        checkpoint_case(&ds, &mut rng, &mut out, false);
     }
     // a 1 MiB value and a 300-field hash: round trips on the Rust side only (no model op: the
     // line protocol would carry megabytes of hex)
